@@ -26,4 +26,8 @@ def check(ctx, run):
     accessors.r05_7(ctx, run)
     accessors.r05_8(ctx, run)
     accessors.r05_9(ctx, run)
+    import boundaries
+    _bf = lambda p_: p_ in ('functions::get_by_keypath', 'functions::get_jentry_by_index', 'functions::type_of', 'functions::get_by_index', 'functions::get_jentry_by_name', 'functions::array_length')
+    boundaries.check(ctx, run, 'R05.10', [p_ for p_ in sorted(boundaries.load_baseline() or {}) if _bf(p_)], 'an accessor rejects (returns None for) a position')
+    accessors.name_variants_alike(ctx, run, 'R05.11', lambda p_: p_.startswith('functions::'))
     return report.finish(run, level='other', explanation=EXPLANATION, assumptions=["A1: documents are valid JSONB (the property's precondition)", "A2: no wrap of usize offsets"])
